@@ -157,6 +157,10 @@ RestartTransparent == cache = FromHist(hist)
 BestOf(h) == CHOOSE b \in 0..Len(h) :
                /\ \A e \in 0..Len(h) : (IF b = 0 THEN INF ELSE h[b].val) <= (IF e = 0 THEN INF ELSE h[e].val)
                /\ \A e \in 0..Len(h) : (IF e = 0 THEN INF ELSE h[e].val) = (IF b = 0 THEN INF ELSE h[b].val) => b <= e
+\* the same by the training metric (get_best_epoch(train_met=True))
+BestTrnOf(h) == CHOOSE b \in 0..Len(h) :
+               /\ \A x \in 0..Len(h) : (IF b = 0 THEN INF ELSE h[b].trn) <= (IF x = 0 THEN INF ELSE h[x].trn)
+               /\ \A y \in 0..Len(h) : (IF y = 0 THEN INF ELSE h[y].trn) = (IF b = 0 THEN INF ELSE h[b].trn) => b <= y
 TypeOK == /\ Len(conts) = Len(hist)
           /\ \A e \in 1..Len(hist) : hist[e].epoch = e /\ hist[e].espat \in 0..p.P /\ hist[e].rpat \in 1..p.RP
           /\ \A e \in 1..Len(hist) : hist[e].esres \in 0..p.B /\ hist[e].rres \in 0..(IF p.RB > p.RC THEN p.RB ELSE p.RC)
@@ -168,5 +172,6 @@ Emit(rec) == PrintT(<<"VFJ", ToJson(rec)>>)
 Terminal == Len(hist) = MaxLen \/ Stopped
 Export == (Terminal /\ ~fresh) =>
              Emit([p |-> p, rows |-> hist, conts |-> conts,
-                   best |-> [i \in 1..Len(hist) |-> BestOf(SubSeq(hist, 1, i))]])
+                   best |-> [i \in 1..Len(hist) |-> BestOf(SubSeq(hist, 1, i))],
+                   besttrn |-> [i \in 1..Len(hist) |-> BestTrnOf(SubSeq(hist, 1, i))]])
 =============================================================================
